@@ -345,11 +345,13 @@ func runHistory(t *testing.T, inst InstD, reqs []ReqD) (obs []ExecObs, start int
 				}
 				invoked++
 				fnMu.Unlock()
+				view0 := ""
 				if exec != nil {
 					aux := int64(0)
 					if exec.IsHedge() {
 						aux = 1
 					}
+					view0 = gOutcome(exec.LastResult(), exec.LastError())
 					log.attempt("FnStart", total, exec, aux)
 				} else {
 					log.add("FnStart", total, 0, 0, 0, 0, "(0, None)", 0)
@@ -369,7 +371,16 @@ func runHistory(t *testing.T, inst InstD, reqs []ReqD) (obs []ExecObs, start int
 				}
 				r, e := out.Go()
 				if exec != nil {
-					log.addT("FnEnd", total, exec.Attempts(), exec.Retries(), exec.Hedges(), exec.Executions()+1, gOutcome(r, e), 0, log.abs(exec.StartTime()), log.abs(exec.AttemptStartTime()))
+					// what the function can read of the previous attempt does not change while it runs: LastResult / LastError are those
+					// of the last COMPLETED attempt (a missing error falls back to the context's, which may have been cancelled meanwhile)
+					bad := int64(0)
+					if view1 := gOutcome(exec.LastResult(), exec.LastError()); view1 != view0 {
+						bad = 1
+						if exec.Context().Err() != nil && view1 == gOutcome(exec.LastResult(), exec.Context().Err()) && strings.HasSuffix(view0, "None)") {
+							bad = 0
+						}
+					}
+					log.addT("FnEnd", total, exec.Attempts(), exec.Retries(), exec.Hedges(), exec.Executions()+1, gOutcome(r, e), bad, log.abs(exec.StartTime()), log.abs(exec.AttemptStartTime()))
 				} else {
 					log.add("FnEnd", total, 0, 0, 0, 0, gOutcome(r, e), 0)
 				}
